@@ -29,7 +29,8 @@ CHECKS = {
              "element equal the library's Hfind/Hread, Vdata/Vgroup records equal VSinquire/VF*/Vgettagrefs, SD/GR "
              "values equal SDreaddata/GRreadimage, and HDgetdatainfo/VSgetdatainfo/SDgetdatainfo (also per chunk)/"
              "GRgetdatainfo/ANgetdatainfo report exactly the reader's extents for info_count 0, 1, n-1, n, n+3 with "
-             "canaries behind the arrays. 5 000 / 120 000 histories.",
+             "canaries behind the arrays; SDgetattdatainfo, SDgetanndatainfo, VSgetattdatainfo and Vgetattdatainfo point at bytes that "
+             "are the attribute's (annotation's) values. 5 000 / 120 000 histories.",
         note="Trusts FORMAT_NOTES.md as the statement of the published format and the small reader written from it; "
              "skipping-Huffman and n-bit payloads are checked structurally only; external elements and chunked images "
              "are left out of the raw-location comparison; at Hsync points only the structural rules are checked. Session-view oracle: what a session reads of every object just before it closes must equal what a new session reads from the closed file (catches updates lost at close in all six interfaces without a model).",
